@@ -34,6 +34,19 @@ pub fn all() -> Vec<Check> {
 		stub: CLI_STUB,
 	},
 	Check {
+		prop: "C18",
+		level: "exploration",
+		scens: vec![Scen { name: "cli_leak", f: || Box::pin(cli::leak::scenario()), weight: 1, sweep: None, max_steps: 400_000 }],
+		quick_runs: 5_000,
+		thorough_runs: 600_000,
+		rule: "1-3 front-end tasks x 1-8 cycles from {call, failing call, batch, notification, subscribe ended by unsubscribe/drop/server close/lag, subscribe refused/malformed/duplicate id, notification handler drop/unsubscribe/lag/double registration}; acknowledgements in drawn order; non-trivial = the connection was still up at quiescence and the four table sizes were read; distinct = schedule fingerprint",
+		lib_panic_is_violation: false,
+		stuck_is_violation: false,
+		assumptions: vec!["a poll of a task is atomic", "table sizes are read through hook H5 (a Weak handle, so the hook cannot keep state alive)"],
+		real: CLI_REAL,
+		stub: CLI_STUB,
+	},
+	Check {
 		prop: "C09",
 		level: "fault_enumeration",
 		scens: vec![Scen {
